@@ -105,7 +105,7 @@ var dimsB = []dimension{
 			c.LivenessProbe = httpProbe("/live", intstr.FromInt32(8080))
 			p.Annotations["sidecar.istio.io/rewriteAppHTTPProbers"] = "false"
 		}},
-		{"tcp+grpc+startup", true, func(p *corev1.Pod) {
+		{"tcp+grpc+startup", false, func(p *corev1.Pod) {
 			c := appContainer(p)
 			c.ReadinessProbe = &corev1.Probe{ProbeHandler: corev1.ProbeHandler{TCPSocket: &corev1.TCPSocketAction{Port: intstr.FromInt32(9090)}}}
 			c.LivenessProbe = &corev1.Probe{ProbeHandler: corev1.ProbeHandler{GRPC: &corev1.GRPCAction{Port: 9090}}}
@@ -124,6 +124,7 @@ var dimsB = []dimension{
 				Name: "istio-proxy", Image: "auto",
 				Resources: corev1.ResourceRequirements{Requests: corev1.ResourceList{corev1.ResourceCPU: resource.MustParse("250m")}},
 				Env:       []corev1.EnvVar{{Name: "C19_USER_ENV", Value: "kept"}},
+				Ports:     []corev1.ContainerPort{{Name: "tcp-extra", ContainerPort: 15099, Protocol: corev1.ProtocolTCP}}, // e.g. a gateway's listener port
 			}}, p.Spec.Containers...)
 		}},
 		{"auto-last", true, func(p *corev1.Pod) {
@@ -164,6 +165,11 @@ var dimsB = []dimension{
 			p.Annotations["prometheus.io/port"] = "9090"
 			p.Annotations["prometheus.io/path"] = "/metrics"
 		}},
+	}},
+	{"statusport", []option{
+		{"default", false, nop},
+		// the pod picks its own agent status port: rewritten probes then point at 15030, not at the mesh-wide 15020
+		{"15030", false, anno("status.sidecar.istio.io/port", "15030")},
 	}},
 	{"proxyconfig", []option{
 		{"none", false, nop},
@@ -260,7 +266,8 @@ func buildPod(c caseB) (*corev1.Pod, bool, error) {
 }
 
 // summarise turns the list of differing paths into a short, stable shape for the violation key: which
-// container (in whichever list) or which other top-level item changed, not which field of it.
+// container (in whichever list) and which of its top-level fields / named env entries changed, or which
+// other top-level item.
 func summarise(paths []string) string {
 	seen := map[string]bool{}
 	var out []string
@@ -273,6 +280,9 @@ func summarise(paths []string) string {
 		switch {
 		case len(parts) >= 2 && parts[0] == "spec" && (strings.HasPrefix(parts[1], "containers[") || strings.HasPrefix(parts[1], "initContainers[")):
 			s = "container" + parts[1][strings.Index(parts[1], "["):]
+			if len(parts) >= 3 { // and which part of it: .resources, .image, .env[ISTIO_META_POD_PORTS], ...
+				s += "." + parts[2]
+			}
 		case len(parts) >= 2 && parts[0] == "spec" && (parts[1] == "containers" || parts[1] == "initContainers"):
 			s = "container order"
 		case len(parts) > 3:
@@ -444,7 +454,7 @@ func (r *runnerB) check(res *engine.Result, c caseB, recheck, verbose bool) {
 func TestC19b(t *testing.T) {
 	env := engine.GetEnv()
 	res := engine.NewResult("C19", "b-idempotence")
-	res.Rule = "every combination of the pod-spec alphabet (template annotation, user containers, init / native-sidecar containers, probes and rewrite, user-written istio-proxy, overrides annotation, volumes, hostNetwork, prometheus annotations, interception / hold settings, owner, native-sidecar mode) submitted to the real /inject handler configured from the shipped chart, the patch applied, the result submitted again; non-trivial = the webhook actually injected, so re-injection and preservation are exercised"
+	res.Rule = "every combination of the pod-spec alphabet (template annotation, user containers, init / native-sidecar containers, probes and rewrite, user-written istio-proxy, overrides annotation, volumes, hostNetwork, prometheus annotations, status port annotation, interception / hold settings, owner, native-sidecar mode) submitted to the real /inject handler configured from the shipped chart, the patch applied, the result submitted again; non-trivial = the webhook actually injected, so re-injection and preservation are exercised"
 	defer res.Write(t, env)
 	s := loadShipped(t)
 	r := &runnerB{t: t, wh: newWebhook(t, s, s.config(t))}
